@@ -257,6 +257,9 @@ var genScenarios = map[string]func(g *Gen) []scriptStep{
 			pubStep(sT0, ""),
 			advStep(50 * time.Second),
 			pubStep(sT0, "", ""),
+			opStep(&Op{Kind: "GetSub", Name: sS0}),
+			opStep(&Op{Kind: "ListSubs", Project: "projects/p", Size: 100}),
+			opStep(&Op{Kind: "ListTopicSubs", Name: sT0, Size: 100}),
 			opStep(&Op{Kind: "Job", Job: "PruneDeletedSubDeliveries", MinAge: time.Second, MaxN: 100}),
 			pullStep(sS0, 10),
 			advStep(50 * time.Second),
@@ -289,14 +292,27 @@ var genScenarios = map[string]func(g *Gen) []scriptStep{
 			subStep(&SubReq{Name: sS0, Topic: sT0, Ordered: true}),
 			pubStep(sT0, "k1"), pullStep(sS0, 10), ackLeased(sS0, "Ack", 0, false),
 			pubStep(sT0, "k1", "", "k1"),
-			opStep(&Op{Kind: "Job", Job: g.pick([]string{"PruneCompletedDeliveries", "PruneCompletedMessages", "PruneExpiredDeliveries"}), MinAge: 0, MaxN: 1}),
+			func(g *Gen, d *Dump, vnow int64) Action {
+				if g.chance(0.5) {
+					// the successor is delivered once before its (acknowledged) predecessor comes back
+					return Action{Op: &Op{Kind: "Pull", Name: sS0, Max: 10}}
+				}
+				return Action{Op: &Op{Kind: "Job", Job: g.pick([]string{"PruneCompletedDeliveries", "PruneCompletedMessages", "PruneExpiredDeliveries"}), MinAge: 0, MaxN: 1}}
+			},
+			func(g *Gen, d *Dump, vnow int64) Action {
+				if g.chance(0.3) {
+					// purge forward first: the links of what it completes must survive a later replay
+					return Action{Op: &Op{Kind: "SeekTime", Name: sS0, Target: vnow + int64(time.Minute)}}
+				}
+				return Action{Op: &Op{Kind: "GetSub", Name: sS0}}
+			},
 			func(g *Gen, d *Dump, vnow int64) Action {
 				if g.chance(0.5) {
 					return Action{Op: &Op{Kind: "SeekTime", Name: sS0, Target: vnow - int64(time.Hour)}}
 				}
 				return Action{Op: &Op{Kind: "Pull", Name: sS0, Max: 1}}
 			},
-			pullStep(sS0, 10), ackLeased(sS0, "Ack", 0, true), pullStep(sS0, 10),
+			pastLeases(sS0), pullStep(sS0, 10), ackLeased(sS0, "Ack", 0, true), pullStep(sS0, 10),
 		}
 	},
 	// a positive deadline change shorter than the running lease, and a nack (C04)
@@ -321,6 +337,10 @@ func scenariosFor(profile string) []string {
 		return scenarioNames
 	case "seek":
 		return []string{"seek-revive-late", "ordered-chain"}
+	case "names":
+		return []string{"idle-expired-live"}
+	case "config":
+		return []string{"filter-replaced", "idle-expired-live"}
 	case "c15":
 		// no reviving seeks in the paired histories
 		return []string{"dl-deleted-topic", "dl-ordered-target", "dl-filtered-target", "idle-expired-live", "filter-replaced"}
